@@ -194,7 +194,13 @@ func TestRace_CsyncRWMutex(t *testing.T) {
 func TestRace_CContainer(t *testing.T) {
 	c := ccontainer.NewCContainerWithEqual(0, func(a, b int) bool { return a == b })
 	run(t, workers, 1<<20, func(id int, rng *rand.Rand, i int) {
-		switch rng.Intn(6) {
+		switch rng.Intn(8) {
+		case 6:
+			_ = c.SwapValue(nil) // documented: a nil callback only reads the value
+		case 7:
+			ctx, cancel := shortCtx(rng)
+			_, _ = c.WaitValueWithValidator(ctx, func(v int) (bool, error) { return v == 3, nil }, nil)
+			cancel()
 		case 0:
 			c.SetValue(rng.Intn(4))
 		case 1:
